@@ -23,8 +23,9 @@ def norm_out(s: str) -> str:
     return "".join(parts)
 
 
-def run_real(template, tmpl: dict, plan: list, handler_cfg) -> dict:
-    probe = Probe(tmpl["sites"], plan)
+def run_real(template, tmpl: dict, plan: list, handler_cfg,
+             shared=None) -> dict:
+    probe = Probe(tmpl["sites"], plan, shared)
     handler = None
     if handler_cfg is not None:
         handler = Handler(handler_cfg.get("fail_with"))
